@@ -49,9 +49,12 @@ async def scenario(sc: dict) -> WorkerRun:
     for _ in range(5):
         await asyncio.sleep(0)
     if sc.get("broker") == "rabbit":
-        # a delivery that reached the RabbitMQ consumer while it was paused / stopping is rejected by its callback after
-        # the consumer's own 0.1 s pause (and every unacknowledged delivery returns when the channel closes)
+        # on RabbitMQ the in-flight state lives in the channel: "afterwards" is after the worker's connection is closed
+        # (every unacknowledged delivery then returns to its queue — the server's guarantee, assumption set A); as in C03
         await asyncio.sleep(0.3)
+        await run.broker.disconnect()
+        for _ in range(6):
+            await asyncio.sleep(0)
     run.final = {q: run.msg_params(q) for q in set(sc["actors"].values())}
     return run
 
